@@ -1817,7 +1817,7 @@ Theorem monotone_full s l1 l2 p1 t1 p2 t2 a b va vb :
   h_height va <= h_height vb.
 Proof.
   intros H1 H2 Ha Hb Hvb.
-  destruct (prun_upper _ _ _ _ (cinit_below s) H1) as (_ & _ & Hu).
+  destruct (prun_upper _ (pinit s) _ _ (cinit_below s) H1) as (_ & _ & Hu).
   assert (HJ : sbj_above (L (c_s (p_c p1))) b (p_c p1)).
   { split; [lia|]. rewrite Hb. discriminate. }
   destruct (prun_lower _ _ _ _ _ _ HJ H2) as (_ & Hl).
